@@ -7,6 +7,9 @@ Drives the *real* compilers of /repo on generated problems and exposes, for the 
                             plan.replace_action_instances(result.map_back_action_instance)
     labels(prep)            per compiled ground instance: the (action name, args) it maps back to, or None
     divergence(...)         diagnosis helper for mechanism strings (never used for verdicts)
+    run_corpus(...)         thorough tier: the repository's example problems x every target that supports their kind
+                            (prepare_example builds the same Prepared object from an example instead of a recipe)
+    witness_base(prep), known_plans(prep, ex, res)
 """
 from vk import env as _env
 from vk.core import rng_for, h
@@ -259,6 +262,8 @@ def _new_prepared(key, tier, tg, rec, feats, tags, gt, pb, env, sp_o, b, ctx):
     p.kinds = [CompilationKind[k] for k in tg.kinds]
     p.rejected = None
     p.result = None
+    p.cprefix = ""  # prefix of the per-compiler counters ("corpus:" for the example-corpus part)
+    p.example = None  # name of the example problem (corpus part), None for generated cases
     return p
 
 
@@ -290,7 +295,7 @@ def _compile(p, res):
     from unified_planning.exceptions import UPException
 
     tg, pb, b = p.target, p.pb, p.b
-    pre = tg.name + ":"
+    pre = p.cprefix + tg.name + ":"
     try:
         c = p.env.factory.Compiler(problem_kind=pb.kind, compilation_kinds=p.kinds) if tg.is_pipeline else p.cls()
     except (UPException,) + _env.INTERNAL_EXC as e:
@@ -336,6 +341,226 @@ def prepare_from_recipe(rec, target_name, key, tier, res):
     p = _new_prepared(key, tier, tg, rec, [], [], "replayed-recipe", pb, env, sp_o, b, ctx)
     st = _compile(p, res)
     return None if st is None else p
+
+
+# ---- corpus part (thorough tier): the repository's own example problems --------------------------------------
+# Work budgets are node / plan / path counts (never seconds).  k is set per example (see corpus_bound).
+CORPUS_BOUNDS = dict(k=4, k_cap=60, node_cap=20000, max_inst_o=400, max_inst_c=800, max_gfl=400, max_plans_c=100, max_plans_o=40)
+CORPUS_SHARDS = 16  # the examples are dealt round-robin over the thorough shards (spec["shard"] % CORPUS_SHARDS)
+
+
+def witness_base(prep):
+    """Common part of every C06/C07 witness; corpus witnesses carry {"example": name} instead of a recipe."""
+    w = {"case_key": prep.key, "tier": prep.tier, "compiler": prep.target.name, "tags": prep.tags}
+    if prep.example is not None:
+        w["example"] = prep.example
+    else:
+        w["recipe"] = prep.rec
+    return w
+
+
+def _load_examples():
+    """The example problems, built in a fresh environment that is installed as the global one (same reason as in prepare)."""
+    from unified_planning.test.examples import get_example_problems
+
+    env = _env.fresh_env()
+    _upenv.GLOBAL_ENVIRONMENT = env
+    return env, get_example_problems()
+
+
+def _corpus_skip_reason(pb):
+    """Why the reference sequential semantics (seqsem / traj / search) does not cover this problem, or None."""
+    from unified_planning.model import InstantaneousAction
+
+    if any(not isinstance(a, InstantaneousAction) for a in pb.actions):
+        return "temporal_actions"
+    if getattr(pb, "natural_transitions", None):
+        return "processes_or_events"
+    if pb.timed_effects or pb.timed_goals:
+        return "timed_effects_or_goals"
+    if any(a.simulated_effect is not None for a in pb.actions):
+        return "simulated_effects"
+    return None
+
+
+def known_sequential_plans(pb, ex):
+    """[(steps on pb | None, error | None)] for the SequentialPlans among the example's valid plans."""
+    from unified_planning.plans import SequentialPlan
+
+    out = []
+    for pl in ex.valid_plans:
+        if not isinstance(pl, SequentialPlan):
+            continue
+        try:
+            out.append((_steps_of(pb, pl.actions), None))
+        except ValueError as e:
+            out.append((None, str(e)))
+    return out
+
+
+def corpus_bound(known):
+    """Length bound of the plan searches for one example: the length of its shortest known valid plan when there is one
+    (so that the compiled search can reach real plans), at least CORPUS_BOUNDS["k"] (the thorough bound of the generated part), at most CORPUS_BOUNDS['k_cap']."""
+    lens = [len(st) for st, err in known if st is not None]
+    want = min(lens) if lens else CORPUS_BOUNDS["k"]
+    return max(CORPUS_BOUNDS["k"], min(want, CORPUS_BOUNDS["k_cap"])), want > CORPUS_BOUNDS["k_cap"]
+
+
+def known_plans(prep, ex, res):
+    """The example's known valid sequential plans as FoundPlans of prep.space_o, each first confirmed by the reference
+    semantics (every step applicable, goal and trajectory constraints true); the others are counted and left out."""
+    from vk.ref.search import FoundPlan
+
+    sp = prep.space_o
+    pre = prep.cprefix
+    index = {(a.name, args): i for i, (a, args) in enumerate(sp.instances)}
+    out = []
+    for steps, err in known_sequential_plans(prep.pb, ex):
+        res.count(pre + "known_plans")
+        if steps is None:
+            res.count(pre + "known_plans_skipped:not_convertible")
+            continue
+        if sp.init_status != "ok":
+            res.count(pre + "known_plans_skipped:initial_state_" + sp.init_status)
+            continue
+        idx, sids, bad = [], [sp.s0], None
+        for a, args in steps:
+            i = index.get((a.name, tuple(args)))
+            if i is None:
+                bad = "step_is_no_ground_instance"
+                break
+            st, nid, _ = sp.step(sids[-1], i)
+            if st != "ok":
+                bad = "step_" + str(st)
+                break
+            idx.append(i)
+            sids.append(nid)
+        if bad is None:
+            e = sp.end_ok(sids)
+            if e is not True:
+                bad = "goal_or_trajectory_" + ("dontcare" if e is None else "false")
+        if bad is not None:
+            res.count(pre + "known_plans_skipped:not_confirmed_by_reference:" + bad)
+            continue
+        fp = FoundPlan(sp, idx, sids)
+        if any(fp.idx == o.idx for o in out):
+            res.count(pre + "known_plans_skipped:duplicate")
+            continue
+        res.count(pre + "known_plans_confirmed")
+        out.append(fp)
+    return out
+
+
+def prepare_example(name, pb, env, sp_o, tname, res, prop, k):
+    """Compile one example with one target: Prepared (result None when rejected) or None (reason counted)."""
+    from unified_planning.engines import CompilationKind
+
+    tg = TARGETS[tname]
+    pre = "corpus:" + tname + ":"
+    REJ = _documented_rejections()
+    try:
+        if tg.is_pipeline:
+            env.factory.Compiler(problem_kind=pb.kind, compilation_kinds=[CompilationKind[x] for x in tg.kinds])
+        elif not _compiler_class(tname).supports(pb.kind):
+            res.count(pre + "unsupported_kind")
+            return None
+    except REJ:
+        res.count(pre + "unsupported_kind")
+        return None
+    except _env.INTERNAL_EXC as e:
+        res.count(pre + f"factory_raises:{type(e).__name__}")  # C09/C32 material (F25/F26), as in prepare
+        return None
+    b = dict(CORPUS_BOUNDS, k=k)
+    p = _new_prepared(f"{prop}:example:{name}:{tname}", "thorough", tg, {"example": name}, [], [], "example", pb, env, sp_o, b, None)
+    p.cprefix = "corpus:"
+    p.example = name
+    if _too_many_conditional_effects(p):
+        res.count(pre + "skipped_powerset_too_large")
+        return None
+    st = _compile(p, res)
+    return None if st is None else p
+
+
+def run_corpus(res, prop, judge_fn, shard=0, nshards=1, only=None):
+    """Corpus part of C06/C07: every example problem of class Problem inside the reference semantics and the size caps x
+    every target that supports its kind -> judge_fn(prep, example, res).  `only` = (example name, target name) for replay.
+    Each example is rebuilt in its own fresh environment (so that a replay sees exactly what the full run saw)."""
+    from unified_planning.model import Problem
+
+    b = CORPUS_BOUNDS
+    res.count("corpus:scheduled")
+    _, exs = _load_examples()
+    names = sorted(n for n, ex in exs.items() if type(ex.problem) is Problem)
+    for j, name in enumerate(names):
+        if only is not None:
+            if name != only[0]:
+                continue
+        elif j % nshards != shard % nshards:
+            continue
+        res.count("corpus:examples")
+        env, exs = _load_examples()
+        ex = exs[name]
+        pb = ex.problem
+        why = _corpus_skip_reason(pb)
+        if why is None:
+            try:
+                if len(seqsem.all_instances(pb)) > b["max_inst_o"] or len(seqsem.ground_fluents(pb)) > b["max_gfl"]:
+                    why = "too_large"
+                else:
+                    sp_o = Space(pb, node_cap=b["node_cap"])
+                    known = known_sequential_plans(pb, ex)
+            except Unsupported:
+                why = "unsupported_by_oracle"
+        if why is not None:
+            res.count("corpus:examples_skipped:" + why)
+            continue
+        res.count("corpus:examples_tried")
+        k, below = corpus_bound(known)
+        if below:
+            res.count("corpus:examples_bound_below_known_plan_length")
+        for tname in TARGET_NAMES:
+            if only is not None and tname != only[1]:
+                continue
+            prep = prepare_example(name, pb, env, sp_o, tname, res, prop, k)
+            if prep is None:
+                continue
+            res.count("corpus:pairs_prepared")
+            try:
+                judge_fn(prep, ex, res)
+            except Unsupported:
+                res.count(f"corpus:{tname}:unsupported_by_oracle")
+
+
+def corpus_thresholds(c, judged_keys, need_examples=30, need_pairs=300, need_judged=300, need_per_compiler=10):
+    """Reasons making a run inconclusive on account of the corpus part (only when it was scheduled, i.e. thorough tier).
+    judged_keys: the per-compiler counters that count one judged plan each.  (Observed on the unchanged tree: 52 examples,
+    ~650 compiled pairs, 2911 (C06) / 654 (C07) plans judged, >= 29 per single compiler.)"""
+    if not c.get("corpus:scheduled"):
+        return []
+
+    def judged_of(tn):
+        return sum(c.get(f"corpus:{tn}:{k}", 0) for k in judged_keys)
+
+    out = []
+    if c.get("corpus:examples_tried", 0) < need_examples:
+        out.append(f"corpus part: fewer than {need_examples} example problems inside the reference semantics and the size caps ({c.get('corpus:examples_tried', 0)})")
+    pairs = sum(c.get(f"corpus:{tn}:compiled", 0) for tn in TARGET_NAMES)
+    if pairs < need_pairs:
+        out.append(f"corpus part: fewer than {need_pairs} (example, compiler) pairs compiled ({pairs})")
+    judged = sum(judged_of(tn) for tn in TARGET_NAMES)
+    if judged < need_judged:
+        out.append(f"corpus part: fewer than {need_judged} plans judged ({judged})")
+    for tn in TARGET_NAMES:
+        if TARGETS[tn].is_pipeline:
+            continue
+        n = judged_of(tn)
+        if n < need_per_compiler:
+            out.append(f"corpus part: fewer than {need_per_compiler} plans judged for {tn} ({n})")
+    return out
+
+
+def corpus_coverage(c):
+    return {k[len("corpus:") :]: v for k, v in sorted(c.items()) if k.startswith("corpus:")}
 
 
 def _reach(space, depth):
